@@ -1081,6 +1081,7 @@ func (c *FnCtx) execRange(st *State, x *ast.RangeStmt) []Out {
 		elemVal = func(s *State, i *Term) *Term { return mkSelect(val, c.sliceAt(keys, i)) }
 		keyT, valT = u.Key(), u.Elem()
 		c.mapRangeLoops++
+		c.checkMapRangeOrder(st, x)
 	case *types.Signature:
 		// range over function iterator: the iterator value is a sequence
 		seq = c.eval(st, x.X)
@@ -1696,4 +1697,89 @@ func (c *FnCtx) coverBody(outs []Out, site ast.Node) {
 		disj = append(disj, mkAnd(pc[n:]...))
 	}
 	c.obls = append(c.obls, &Obligation{Func: c.fi.Key, Kind: "cover:loop", Site: site.Pos(), Sub: fmt.Sprintf("loop%d", c.loopOrd[site]), Detail: "some path through the loop body is consistent with the invariants and all assumptions made on it", Assume: append([]*Term(nil), pcs[0][:n]...), Goal: mkOr(disj...), Cover: true})
+}
+
+
+// checkMapRangeOrder (C11): the iteration order of a map is unspecified, so the effect of a loop over a map must not
+// depend on it. Flagged (obligation order:maprange, decided on the syntax): appending to a slice that outlives the loop
+// and is not sorted afterwards, building a string, emitting output or reports, and returning a value computed from the
+// current element. Sums, counters, set/map insertions and constant returns are order-independent.
+func (c *FnCtx) checkMapRangeOrder(st *State, x *ast.RangeStmt) {
+	if c.log != nil {
+		return
+	}
+	outer := func(id *ast.Ident) bool {
+		v, ok := c.info.ObjectOf(id).(*types.Var)
+		if !ok {
+			return false
+		}
+		return !(v.Pos() >= x.Body.Pos() && v.Pos() <= x.Body.End())
+	}
+	sortedLater := func(v types.Object) bool {
+		found := false
+		if c.fi == nil || c.fi.Decl == nil {
+			return false
+		}
+		ast.Inspect(c.fi.Decl, func(n ast.Node) bool {
+			call, ok := n.(*ast.CallExpr)
+			if !ok || call.Pos() < x.End() {
+				return true
+			}
+			if sel, ok := call.Fun.(*ast.SelectorExpr); ok {
+				if pk, ok := sel.X.(*ast.Ident); ok && (pk.Name == "sort" || pk.Name == "slices") && strings.HasPrefix(sel.Sel.Name, "S") {
+					for _, a := range call.Args {
+						if id, ok := ast.Unparen(a).(*ast.Ident); ok && c.info.ObjectOf(id) == v {
+							found = true
+						}
+					}
+				}
+			}
+			return true
+		})
+		return found
+	}
+	flag := func(n ast.Node, what string) {
+		c.oblige(st, "order:maprange", n, "", "the effect of a loop over a map does not depend on the iteration order: "+what, tFalse)
+	}
+	ast.Inspect(x.Body, func(n ast.Node) bool {
+		switch y := n.(type) {
+		case *ast.FuncLit:
+			return false
+		case *ast.AssignStmt:
+			for i, r := range y.Rhs {
+				if call, ok := ast.Unparen(r).(*ast.CallExpr); ok {
+					if fid, ok := call.Fun.(*ast.Ident); ok && fid.Name == "append" && len(call.Args) > 0 {
+						if id, ok := ast.Unparen(call.Args[0]).(*ast.Ident); ok && outer(id) && !sortedLater(c.info.ObjectOf(id)) {
+							flag(y, "append to "+id.Name+", which is not sorted afterwards")
+						}
+					}
+				}
+				if y.Tok == token.ADD_ASSIGN && i < len(y.Lhs) {
+					if id, ok := ast.Unparen(y.Lhs[i]).(*ast.Ident); ok && outer(id) && isStringType(c.typeOf(id)) {
+						flag(y, "string "+id.Name+" built by concatenation")
+					}
+				}
+			}
+		case *ast.ReturnStmt:
+			for _, r := range y.Results {
+				switch z := ast.Unparen(r).(type) {
+				case *ast.BasicLit:
+				case *ast.Ident:
+					if z.Name != "true" && z.Name != "false" && z.Name != "nil" && !outer(z) {
+						flag(y, "returns a value taken from the current element")
+					}
+				default:
+					flag(y, "returns a value computed inside the loop")
+				}
+			}
+		case *ast.CallExpr:
+			if sel, ok := y.Fun.(*ast.SelectorExpr); ok {
+				nm := sel.Sel.Name
+				if strings.HasPrefix(nm, "Report") || strings.HasPrefix(nm, "Print") || strings.HasPrefix(nm, "Fprint") || nm == "WriteString" || nm == "Write" {
+					flag(y, "emits output ("+nm+") in map order")
+				}
+			}
+		}
+		return true
+	})
 }
